@@ -17,12 +17,13 @@ import ParanoidModel.Driver.Hnp
 import ParanoidModel.Driver.Bsgs
 import ParanoidModel.Driver.EcdsaChecks
 import ParanoidModel.Driver.Nist
+import ParanoidModel.Driver.NistStats
 import ParanoidModel.Driver.RsaAll
 import ParanoidModel.Driver.EcAll
 open Paranoid.Driver
 
 /-- all dispatchers, tried in order. -/
-def dispatchers : List Dispatcher := [basicOps, nt19Ops, ntheoryOps, factoringOps, rsaCheckOps, ecdsaOps, closedFormOps, rngOps, rngTotalOps, bmOps, bmWrapperOps, bitseqOps, bookkeepingOps, suiteOps, ecOps, latticeOps, linalgOps, hnpOps, bsgsOps, ecdsaCheckOps, nistOps, rsaAllOps, ecAllOps]
+def dispatchers : List Dispatcher := [basicOps, nt19Ops, ntheoryOps, factoringOps, rsaCheckOps, ecdsaOps, closedFormOps, rngOps, rngTotalOps, bmOps, bmWrapperOps, bitseqOps, bookkeepingOps, suiteOps, ecOps, latticeOps, linalgOps, hnpOps, bsgsOps, ecdsaCheckOps, nistOps, nistStatsOps, rsaAllOps, ecAllOps]
 
 def respond (regs : List (String × String)) (line : String) : String :=
   let toks := ((line.trimAscii.toString.splitOn " ").filter (· ≠ "")).map fun t =>
